@@ -23,7 +23,8 @@ type Base struct {
 	Calls     []string // primitives called, in order
 	FailAt    int      // index of the primitive call to fail (-1: none)
 	Fired     bool
-	Unwrapped int // handles returned without a wrapper
+	Partial   bool // the failing file.Read / file.Write / file.ReadDir delivers part of its result together with the error
+	Unwrapped int  // handles returned without a wrapper
 }
 
 // FSBit returns the bit of an FS interface name.
@@ -148,7 +149,7 @@ func (b *Base) call(name string) error {
 // Reset clears the call log.
 func (b *Base) Reset(failAt int) {
 	b.mu.Lock()
-	b.Calls, b.FailAt, b.Fired = nil, failAt, false
+	b.Calls, b.FailAt, b.Fired, b.Partial = nil, failAt, false, false
 	b.mu.Unlock()
 }
 
@@ -332,6 +333,10 @@ func (f *fileBase) perr(op string, err error) error {
 
 func (f *fileBase) read(p []byte) (int, error) {
 	if err := f.b.call("file.Read"); err != nil {
+		if f.b.Partial && len(p) > 1 {
+			n, _ := f.inner.Read(p[:len(p)/2])
+			return n, f.perr("read", err)
+		}
 		return 0, f.perr("read", err)
 	}
 	return f.inner.Read(p)
@@ -351,6 +356,10 @@ func (f *fileBase) close() error {
 }
 func (f *fileBase) write(p []byte) (int, error) {
 	if err := f.b.call("file.Write"); err != nil {
+		if f.b.Partial && len(p) > 1 {
+			n, _ := f.inner.(hackpadfs.ReadWriterFile).Write(p[:len(p)/2])
+			return n, f.perr("write", err)
+		}
 		return 0, f.perr("write", err)
 	}
 	return f.inner.(hackpadfs.ReadWriterFile).Write(p)
@@ -369,6 +378,12 @@ func (f *fileBase) writeAt(p []byte, off int64) (int, error) {
 }
 func (f *fileBase) readDir(n int) ([]hackpadfs.DirEntry, error) {
 	if err := f.b.call("file.ReadDir"); err != nil {
+		if f.b.Partial {
+			// a listing that fails part-way: the entries read so far come back together with the error
+			if entries, _ := f.inner.(hackpadfs.DirReaderFile).ReadDir(n); len(entries) > 1 {
+				return entries[:len(entries)/2], f.perr("readdir", err)
+			}
+		}
 		return nil, f.perr("readdir", err)
 	}
 	return f.inner.(hackpadfs.DirReaderFile).ReadDir(n)
